@@ -40,7 +40,8 @@ func randomTips(tr *tree.Tree, n int) (sampled []string) {
 		if i < n {
 			sampled[i] = tip.Name()
 		} else {
-			j := rand.Intn(i)
+			// Reservoir sampling: the current tip is the (i+1)th one
+			j := rand.Intn(i + 1)
 			if j < n {
 				sampled[j] = tip.Name()
 			}
